@@ -296,7 +296,7 @@ def run(files, pid, build):
     agree on unsat / identity and none answers sat."""
     from concurrent.futures import ThreadPoolExecutor
     o = dict(engine="L", name=",".join(files), bounded=False, failures=[], undecided=[], obligations=0, discharged=0, samples=[], cmds=[], solver_ms=0.0)
-    qdir = os.path.join(build, "lemmas")
+    qdir = os.path.join(build, "lemmas-%s" % pid)
     os.makedirs(qdir, exist_ok=True)
     jobs = []
     for f in files:
